@@ -511,6 +511,16 @@ fn process_tags(
                         idx_output.insert(idx, events);
                     }
                 } else {
+                    if matches!(
+                        gen_result,
+                        Err(SvgdxError::LoopLimitError(..)
+                            | SvgdxError::VarLimitError(..)
+                            | SvgdxError::DepthLimitExceeded(..))
+                    ) {
+                        // exceeding a limit is final: retrying cannot help, and would re-run
+                        // side effects (e.g. variable updates) from an already advanced state
+                        return gen_result.map(|_| None);
+                    }
                     if let (Some(el), Err(err)) = (el, gen_result) {
                         if let SvgdxError::MultiError(err_list) = err {
                             for (idx, (el, err)) in err_list {
